@@ -10,6 +10,7 @@ expression denotes. Not const -> the program must be rejected with a "not const"
 import json
 import os
 import re
+import shutil
 import time
 
 from .. import common as C
@@ -117,7 +118,7 @@ def decoy_kind(T, v, pad, parity):
     other = (v + 5) % 251
     o = 'q :: #import("q.capy");\n' + "".join(f"Z{i} : {T} : {i % 200};\n" for i in range(pad)) + f"N : {T} : q.N;\n"
     files = {"o.capy": o, "q.capy": f"N : {T} : {v};\n", "r.capy": f"N : {T} : {other};\n"}
-    loc = [f"z{i} := {i};" for i in range(parity)] + [f"y{i} := r.N;" for i in range(8)]
+    loc = [f"z{i} := {i};" for i in range(parity)] + [f"y{i} := r.N;" for i in range(24)]
     return K("imported_ref_imported_decoy_sweep", "const", "o.N", scope="local", decls=['o :: #import("o.capy");', 'r :: #import("r.capy");'], locals_=loc, files=files)
 
 
@@ -275,11 +276,13 @@ def cases(tier, rng):
     # sweep of the relative expression numbering for the two-level import (a const_data lookup in the wrong body shows up only when the numbers collide)
     sweep = [(pos, pad, par) for pos in ("array_len", "comptime_arg") for pad in range(0, 72) for par in (0, 1)]
     if tier == "quick":
-        sweep = rng.sample([x for x in sweep if 12 <= x[1] < 40], 16)
+        # main reads the decoy 24 times (every other expression number over a span of 48), so a stride of 6 globals (12 numbers) cannot step over the collision window
+        off = rng.below(6)
+        sweep = [x for x in sweep if x[0] == "array_len" and x[1] % 6 == off and x[1] < 60]
     for pos, pad, par in sweep:
         v = rng.range(1, 240)
         k = decoy_kind("usize", v, pad, par)
-        out.append({"position": pos, "sub": POSITIONS[pos][1][0], "kind": k.name, "expect": k.expect, "layout": rng.pick(["before", "after", "split"]), "value": v, "T": "usize", "k": k,
+        out.append({"position": pos, "sub": POSITIONS[pos][1][0], "kind": k.name, "expect": k.expect, "layout": rng.pick(["before", "after"]), "value": v, "T": "usize", "k": k,
                     "variant": f"pad{pad}/{par}"})
     return out
 
@@ -437,7 +440,7 @@ def replay(path):
         print(f"--- run rc={r.rc} sig={r.sig}\n{r.out[:400]}")
     case = {"kind": wit.get("kind"), "position": wit.get("position"), "sub": wit.get("sub"), "layout": wit.get("layout"), "value": wit.get("value"), "expect": wit.get("expect")}
     verdict, v, inc, _ = judge(case, files, wit.get("obs") or {}, c, r)
-    C.clean_work("C15")
+    shutil.rmtree(work, ignore_errors=True)
     if v is not None:
         print(f"VIOLATION property=C15 replay={path}")
         print(f"  {v['key']}: {v['what'][:400]}")
